@@ -426,6 +426,8 @@ impl RefTerm {
                         }
                         5 if v[1] == 2 => Some((v[2], v[3], v[4])).map(rgb).transpose()?,
                         6 if v[1] == 2 => Some((v[3], v[4], v[5])).map(rgb).transpose()?,
+                        // a selector other than 2 / 5: not a colour form, an unknown parameter
+                        _ if v[1] != 2 && v[1] != 5 => continue,
                         _ => return Err(format!("malformed colour form {:?}", v)),
                     };
                     if fg {
